@@ -8,6 +8,7 @@ import (
 
 	"github.com/gofiber/fiber/v3"
 	"github.com/gofiber/fiber/v3/middleware/cache"
+	"github.com/valyala/fasthttp"
 )
 
 // barrierStore lets two concurrent Get calls for the armed key return together.
@@ -101,5 +102,31 @@ func TestF34_NoCacheRefreshKeepsTheAccounting(t *testing.T) {
 	rc := do(app, "GET", "/a")
 	if n != before || string(rc.Response.Header.Peek("X-Cache")) != "hit" {
 		t.Fatalf("/a is no longer cached after /b was stored (X-Cache=%q): two 1-byte entries fit into MaxBytes=2", rc.Response.Header.Peek("X-Cache"))
+	}
+}
+
+// F35 (open): with StoreResponseHeaders a header the origin sent twice comes back once from the cache:
+// the stored headers are a map keyed by header name.
+func TestF35_RepeatedHeadersSurviveTheCache(t *testing.T) {
+	openFinding(t)
+	app := fiber.New()
+	app.Use(cache.New(cache.Config{StoreResponseHeaders: true, Expiration: time.Hour}))
+	app.Get("/", func(c fiber.Ctx) error {
+		c.Response().Header.Add("Link", "<a>; rel=x")
+		c.Response().Header.Add("Link", "<b>; rel=y")
+		return c.SendString("ok")
+	})
+	count := func(rc *fasthttp.RequestCtx) int {
+		n := 0
+		rc.Response.Header.VisitAll(func(k, _ []byte) {
+			if string(k) == "Link" {
+				n++
+			}
+		})
+		return n
+	}
+	miss, hit := count(do(app, "GET", "/")), count(do(app, "GET", "/"))
+	if miss != hit {
+		t.Fatalf("origin response carries %d Link headers, the cached one %d", miss, hit)
 	}
 }
